@@ -9,6 +9,7 @@
 mod child;
 mod props;
 mod runner;
+mod stackpool;
 
 fn main() {
     let args = mcx::parse_args();
